@@ -687,9 +687,10 @@ addr_v4(int a, int b, int c, int d, int port, int form, const char * desc)
 	struct sockaddr_in sin;
 	char text[64];
 	uint8_t * pb;
-	unsigned long g0 = hx_gai_calls;
+	unsigned long g0 = hx_gai_calls, v0;
 
 	hx_case("addr", desc, strlen(desc));
+	v0 = hx_viol_calls;
 	memset(&sin, 0, sizeof(sin));
 	sin.sin_family = AF_INET;
 	pb = (uint8_t *)&sin.sin_port;
@@ -700,8 +701,16 @@ addr_v4(int a, int b, int c, int d, int port, int form, const char * desc)
 	addr_obligations(text, AF_INET, &sin, sizeof(sin));
 	n_addr4++;
 	if (form == 1) {
-		if (hx_gai_calls == g0)
-			vf_engine_error("host form did not reach the getaddrinfo stub");
+		if (hx_gai_calls == g0) {
+			/*
+			 * The library kept the host form away from the resolver.  If the obligations above failed (e.g.
+			 * sock_resolve gave up before the lookup) that violation stands; if they all held, the library parsed
+			 * the literal by itself, which the property allows ("resolves to the address it denotes" says nothing
+			 * about who does the parsing): counted, neither a violation nor a harness fault.
+			 */
+			if (hx_viol_calls == v0) vf_count("addr.host_form_resolved_without_getaddrinfo", 1);
+			return;
+		}
 		n_addr_gai++;
 	} else if (hx_gai_calls != g0)
 		hx_viol("C17:addr:resolver-reached", "bracketed literal \"%s\" was handed to getaddrinfo", text);
@@ -1458,7 +1467,7 @@ main(int argc, char ** argv)
 			if (vf_getcount("b64.accepted") == 0 || vf_getcount("b64.rejected") == 0 || vf_getcount("hex.accepted") == 0 ||
 			    vf_getcount("hex.rejected") == 0 || vf_getcount("json.found") == 0 || vf_getcount("json.notfound") == 0 ||
 			    vf_getcount("addr.ipv4") == 0 || vf_getcount("addr.ipv6") == 0 || vf_getcount("addr.unix") == 0 ||
-			    vf_getcount("addr.via_getaddrinfo_stub") == 0)
+			    vf_getcount("addr.via_getaddrinfo_stub") + vf_getcount("addr.host_form_resolved_without_getaddrinfo") == 0)
 				vf_engine_error("vacuous: an accept/reject/found/not-found class was never reached");
 		}
 		vf_setmax("codec.exhaustive", 1);
